@@ -78,6 +78,18 @@ _Ts = TypeVarTuple("_Ts")
 log = logging.getLogger(__name__)
 
 
+def _func_name(function: Callable[..., Any]) -> str:
+    """Returns the name of `function`; works for `functools.partial` too."""
+    try:
+        return function.__name__
+    except AttributeError:
+        return getattr(
+            getattr(function, "func", None),
+            "__name__",
+            function.__class__.__name__,
+        )
+
+
 class _FirstStep:
     """Awaitable that suspends the awaiting coroutine exactly once."""
 
@@ -776,7 +788,7 @@ class TaskPool(BaseTaskPool):
             (With `name` being the name of the `coroutine_function` and
             `idx` being an incrementing index.)
         """
-        base_name = f"{prefix}-{coroutine_function.__name__}-group"
+        base_name = f"{prefix}-{_func_name(coroutine_function)}-group"
         i = 0
         while True:
             name = f"{base_name}-{i}"
@@ -831,7 +843,7 @@ class TaskPool(BaseTaskPool):
                     "create coroutine: %s(*%s, **%s)",
                     str(e.__class__.__name__),
                     group_name,
-                    func.__name__,
+                    _func_name(func),
                     repr(args),
                     repr(kwargs),
                 )
@@ -1059,7 +1071,7 @@ class TaskPool(BaseTaskPool):
                     "create coroutine: %s(%s%s)",
                     str(e.__class__.__name__),
                     group_name,
-                    func.__name__,
+                    _func_name(func),
                     "*" * arg_stars,
                     str(next_arg),
                 )
@@ -1447,7 +1459,7 @@ class SimpleTaskPool(BaseTaskPool):
     @property
     def func_name(self) -> str:
         """Name of the coroutine function used in the pool."""
-        return self._func.__name__
+        return _func_name(self._func)
 
     async def _start_num(self, num: int, group_name: str) -> None:
         """Starts `num` new tasks in group `group_name`."""
@@ -1461,7 +1473,7 @@ class SimpleTaskPool(BaseTaskPool):
                     "create coroutine: %s(*%s, **%s)",
                     str(e.__class__.__name__),
                     str(self),
-                    self._func.__name__,
+                    _func_name(self._func),
                     repr(self._args),
                     repr(self._kwargs),
                 )
